@@ -141,34 +141,29 @@ func (rm *RegistrationManager) ingestRegistration(reg *DecoyRegistration) {
 		return
 	}
 
-	if rm.RegistrationExists(reg) {
-		// log phantom IP, shared secret, ipv6 support
-		logger.Debugf("Duplicate registration: %v %s\n", reg.IDString(), reg.RegistrationSource)
-		Stat().AddDupReg()
-		rm.AddDupReg()
-
-		// Track the received registration, if it is already tracked
-		// it will just update the record
-		err := rm.TrackRegistration(reg)
-		if err != nil {
-			logger.Errorln("error tracking registration: ", err)
-			Stat().AddErrReg()
-			rm.AddErrReg()
-		}
-		return
-	}
-	verifhook.Yield("ingest:after-exists", reg)
-
-	// log phantom IP, shared secret, ipv6 support
-	logger.Debugf("New registration: %s %v\n", reg.IDString(), reg.String())
-
-	// Track the received registration
-	err := rm.TrackRegistration(reg)
+	// Check for and track the registration under one lock. With the check and
+	// the tracking in separate critical sections two workers handling the same
+	// registration could both find it untracked: only one object ends up
+	// tracked, but both workers go on to validate it, so the tracked object's
+	// covert address was never checked and the registration was shared and
+	// counted twice.
+	exists, err := rm.TrackRegIfNotExists(reg)
 	if err != nil {
 		logger.Errorln("error tracking registration: ", err)
 		Stat().AddErrReg()
 		rm.AddErrReg()
 	}
+
+	if exists {
+		// log phantom IP, shared secret, ipv6 support
+		logger.Debugf("Duplicate registration: %v %s\n", reg.IDString(), reg.RegistrationSource)
+		Stat().AddDupReg()
+		rm.AddDupReg()
+		return
+	}
+
+	// log phantom IP, shared secret, ipv6 support
+	logger.Debugf("New registration: %s %v\n", reg.IDString(), reg.String())
 	verifhook.Yield("ingest:after-track", reg)
 
 	// If registration is trying to connect to a covert address that
